@@ -65,12 +65,14 @@ def snapshot(U):
     return S
 
 
-def lookups(objs):
-    """answers of every exact lookup over the alphabet for the given parents"""
+def lookups(objs, extra=()):
+    """answers of every exact lookup over the alphabet (and the strings the call itself carries) for
+    the given parents"""
     import spydrnet as sdn
 
     out = {}
     seen = set()
+    values = LOOKUP_NAMES + [v for v in extra if v not in LOOKUP_NAMES]
     for X in objs:
         if X is None or id(X) in seen:
             continue
@@ -85,7 +87,7 @@ def lookups(objs):
             continue
         for tag, fn in fns:
             for key in (".NAME", "EDIF.identifier"):
-                for v in LOOKUP_NAMES:
+                for v in values:
                     try:
                         r = sorted(id(x) for x in fn(X, v, key=key))
                     except Exception as e:  # noqa
@@ -121,7 +123,9 @@ class RefusalMonitor:
     def before(self, U, call):
         self.S0 = snapshot(U)
         self.inv = involved(call)
-        self.L0 = lookups(self.inv)
+        self.strings = sorted({a for a in call.args if isinstance(a, str) and a and len(a) < 300
+                               and "*" not in a and "?" not in a})
+        self.L0 = lookups(self.inv, self.strings)
 
     def after(self, U, call, accepted, exc):
         if accepted:
@@ -140,7 +144,7 @@ class RefusalMonitor:
                 if changed:
                     self.res.violate("C14:%s-changed:%s:%s" % (comp, call.name, reason),
                                      "refused with %r; %d entries differ" % (exc, len(changed)))
-        L1 = lookups(self.inv)
+        L1 = lookups(self.inv, self.strings)
         if L1 != self.L0:
             diffs = [k[1:] for k in self.L0 if self.L0[k] != L1.get(k)]
             self.res.violate("C14:lookup-answer-changed:%s:%s" % (call.name, reason),
